@@ -198,8 +198,17 @@ def _run_hyp(modname, tier, seed, shard, n, do_shrink, collect):
         if conf is None:
             return {"error": f"non-reproducible violation: {msg}\n{canon(case)}"}
         failure = {"case": case, "kind": conf[0], "msg": conf[1]}
-    except herr.FlakyFailure as e:  # check not deterministic -> harness error
-        return {"error": "flaky: " + traceback.format_exc()}
+    except herr.Flaky:
+        # the outcome changed between executions of one case.  If the library keeps state across calls
+        # (e.g. a cache) that is itself how a violation shows; accept it only if the last failing case
+        # fails again through the plain path, otherwise it is a harness error.
+        if "fail" not in holder:
+            return {"error": "flaky: " + traceback.format_exc()}
+        case, kind, msg = holder["fail"]
+        conf = _confirm(mod, case)
+        if conf is None:
+            return {"error": f"flaky and non-reproducible: {msg}\n{canon(case)}\n" + traceback.format_exc()}
+        failure = {"case": case, "kind": conf[0], "msg": conf[1] + " [outcome varied between executions of the same case: the code under test keeps state across calls]"}
     r = acc.out()
     r["failure"] = failure
     return r
